@@ -224,6 +224,121 @@ def check_runner_state(repo: Repo, run: Run, prop: str) -> None:
             run.inconclusive(f"{prop}.H6", f"{rname}.evaluate", "no .evaluate(...) call found")
 
 
+def value_dependencies(fn: ast.AST, e: ast.expr, depth: int = 0) -> Set[str]:
+    """Parameters and `self.<attr>` state an expression depends on, through the function's local assignments."""
+    params = {a.arg for a in fn.args.args + fn.args.kwonlyargs} - {"self", "cls"}
+    out: Set[str] = set()
+    for n in ast.walk(e):
+        if isinstance(n, ast.Attribute) and isinstance(n.value, ast.Name) and n.value.id in ("self", "cls") and isinstance(n.ctx, ast.Load):
+            out.add(f"self.{n.attr}")
+        if isinstance(n, ast.Name) and isinstance(n.ctx, ast.Load):
+            if n.id in params:
+                out.add(n.id)
+            elif depth < 4:
+                for a in ast.walk(fn):
+                    if isinstance(a, (ast.Assign, ast.AnnAssign)) and a.value is not None:
+                        ts = a.targets if isinstance(a, ast.Assign) else [a.target]
+                        if any(isinstance(t, ast.Name) and t.id == n.id for t in ts):
+                            out |= value_dependencies(fn, a.value, depth + 1)
+    return out
+
+
+def check_shared_tables(repo: Repo, run: Run, prop: str, fns, path) -> None:
+    """H1b: a mutable table that lives on a class (or module) and is filled by a method on the API path is a
+    process-wide memo: what is stored under a key must be determined by the key alone.  H1c: a ChainMap whose FIRST
+    layer is such a process-wide table must not be written through (writes go to the first layer)."""
+    MUT = ("update", "setdefault", "pop", "popitem", "clear", "append", "extend", "insert", "remove", "add", "__setitem__")
+    n = 0
+    for modname in ("evaluation", "celpy", "celtypes", "celparser", "adapter"):
+        mod = repo.mod(modname)
+        shared: Dict[Tuple[Optional[str], str], ast.AST] = {}
+        for st in mod.tree.body:
+            if isinstance(st, (ast.Assign, ast.AnnAssign)) and st.value is not None and isinstance(strip_cast(st.value), (ast.Dict, ast.List, ast.Set)):
+                for t in (st.targets if isinstance(st, ast.Assign) else [st.target]):
+                    if isinstance(t, ast.Name):
+                        shared[(None, t.id)] = st
+            if isinstance(st, ast.ClassDef):
+                inst = {t.attr for m in st.body if isinstance(m, ast.FunctionDef) for a in ast.walk(m) if isinstance(a, (ast.Assign, ast.AnnAssign))
+                        for t in (a.targets if isinstance(a, ast.Assign) else [a.target]) if isinstance(t, ast.Attribute) and dotted(t.value) == "self"}
+                for m in st.body:
+                    if isinstance(m, (ast.Assign, ast.AnnAssign)) and m.value is not None:
+                        v = strip_cast(m.value)
+                        mutable = isinstance(v, (ast.Dict, ast.List, ast.Set)) or (isinstance(v, ast.Call) and dotted(v.func) in ("dict", "list", "set", "collections.defaultdict", "defaultdict", "collections.OrderedDict", "OrderedDict"))
+                        if mutable:
+                            for t in (m.targets if isinstance(m, ast.Assign) else [m.target]):
+                                if isinstance(t, ast.Name) and t.id not in inst:
+                                    shared[(st.name, t.id)] = m
+        for key, f in sorted(fns.items()):
+            if f.mod != modname or key not in path:
+                continue
+
+            def cell_of(e: ast.expr) -> Optional[Tuple[Optional[str], str]]:
+                d = dotted(e) or ""
+                parts = d.split(".")
+                if len(parts) == 2 and parts[0] in ("self", "cls") and f.cls and (f.cls, parts[1]) in shared:
+                    return (f.cls, parts[1])
+                if len(parts) == 2 and (parts[0], parts[1]) in shared:
+                    return (parts[0], parts[1])
+                if len(parts) == 1 and (None, parts[0]) in shared:
+                    # a local of the same name shadows the module table
+                    if any(isinstance(x, ast.Name) and x.id == parts[0] and isinstance(x.ctx, ast.Store) for x in ast.walk(f.node)) or parts[0] in [a.arg for a in f.node.args.args]:
+                        return None
+                    return (None, parts[0])
+                return None
+
+            for x in channels.own_nodes(f.node):
+                stored = key_e = None
+                cell = None
+                if isinstance(x, ast.Assign) and isinstance(x.targets[0], ast.Subscript):
+                    cell = cell_of(x.targets[0].value)
+                    stored, key_e = x.value, x.targets[0].slice
+                elif isinstance(x, ast.Call) and isinstance(x.func, ast.Attribute) and x.func.attr in MUT:
+                    cell = cell_of(x.func.value)
+                    if x.func.attr == "setdefault" and len(x.args) == 2:
+                        key_e, stored = x.args[0], x.args[1]
+                    elif cell is not None:
+                        stored = x.args[0] if x.args else None
+                if cell is None:
+                    continue
+                n += 1
+                label = f"{cell[0] + '.' if cell[0] else ''}{cell[1]}"
+                if key_e is not None and stored is not None:
+                    kd = value_dependencies(f.node, key_e)
+                    vd = value_dependencies(f.node, stored) - {f"self.{cell[1]}"}
+                    missing = sorted(vd - kd)
+                    run.ob(f"{prop}.H1", f"{label}@{f.qual}|memo", not missing,
+                           f"{f.label} fills the process-wide table {label} under the key `{ast.unparse(key_e)[:40]}`; the stored value depends on {sorted(vd) or 'nothing else'}"
+                           + ("" if not missing else f", of which {missing} is not part of the key: the first caller's value is served to every later program"),
+                           repo.mod(f.mod).loc(x))
+                else:
+                    run.ob(f"{prop}.H1", f"{label}@{f.qual}|write", False,
+                           f"{f.label} modifies the process-wide table {label} (`{ast.unparse(x)[:60]}`): later operations in the process see the change", repo.mod(f.mod).loc(x))
+            # H1c: writes through a ChainMap whose first layer is a shared table
+            first_layer: Dict[str, Tuple[Optional[str], str]] = {}
+            for x in channels.own_nodes(f.node):
+                if isinstance(x, (ast.Assign, ast.AnnAssign)) and x.value is not None:
+                    v = strip_cast(x.value)
+                    if isinstance(v, ast.Call) and (dotted(v.func) or "").split(".")[-1] == "ChainMap" and v.args:
+                        c0 = cell_of(strip_cast(v.args[0]))
+                        if c0 is not None:
+                            for t in (x.targets if isinstance(x, ast.Assign) else [x.target]):
+                                if dotted(t):
+                                    first_layer[dotted(t)] = c0
+            for x in channels.own_nodes(f.node):
+                tgt = None
+                if isinstance(x, ast.Call) and isinstance(x.func, ast.Attribute) and x.func.attr in MUT and dotted(x.func.value) in first_layer:
+                    tgt = dotted(x.func.value)
+                if isinstance(x, ast.Assign) and isinstance(x.targets[0], ast.Subscript) and dotted(x.targets[0].value) in first_layer:
+                    tgt = dotted(x.targets[0].value)
+                if tgt:
+                    n += 1
+                    c0 = first_layer[tgt]
+                    run.ob(f"{prop}.H1", f"{c0[1]}@{f.qual}|chainmap-first-layer", False,
+                           f"{f.label}: `{ast.unparse(x)[:60]}` writes through a ChainMap whose first layer is the process-wide table {c0[1]}: the entries are registered for every later program",
+                           repo.mod(f.mod).loc(x))
+    run.unit(f"{prop}.H1.shared_table_writes", n)
+
+
 def check_channels(repo: Repo, run: Run, prop: str) -> None:
     fns = channels.all_functions(repo)
     g = channels.call_graph(repo, fns)
@@ -272,6 +387,7 @@ def check_channels(repo: Repo, run: Run, prop: str) -> None:
                    (f"exec() runs in a per-call namespace ({w.detail[:60]})" if ok else
                     f"{w.cell}: code is executed in / written to a namespace shared by every program of the process ({w.detail[:60]})"), site)
     run.floor(f"{prop}.H", n, 3)
+    check_shared_tables(repo, run, prop, fns, path)
 
     # H3: clone depth ------------------------------------------------------
     ev = repo.mod("evaluation")
